@@ -5,7 +5,7 @@ it carries the round's timestamp, and its value is None exactly when some input 
 (None / NaN / +inf / -inf) on a stream without `nones_are_zeros`, or the expression (missing inputs of zeroing streams
 counted as 0) has a zero divisor; otherwise it is the exact rational value.  Expressions: formula strings (independent
 parser) and composition-API trees; every operator x operand position x encoding x flag is enumerated on every run.
-A result that is not finite although all inputs are (exact value beyond the range of a double) must be emitted as None.
+A result that is not finite although all inputs are (IEEE overflow, division by a subnormal) must be emitted as None.
 Correspondence with the model: as in C05 (tokens, postfix steps, emitted samples — exact).
 """
 from __future__ import annotations
@@ -17,9 +17,9 @@ from .common import Ctx, python_flags, rat
 RULE = ("as C05 (strings of the grammar, composition trees, push_* sequences) with 25% of the input values missing, "
         "encodings None/NaN/+inf/-inf, nones_are_zeros per build and per stream; plus on every run the full grid "
         "operator x {first, second, both, no} operand missing x encoding x flag x zero divisor for every binary and "
-        "unary operator, nested once on either side; plus a stream of FINITE inputs (1e200, 1e308, 5e-324, ...) whose exact "
-        "value is beyond the range of a double (overflowing products/sums, division by subnormals, inside larger "
-        "expressions): None must be emitted — oracle only, the model has no overflow.  non-trivial = >=2 operators of >=2 kinds (or a grid case)")
+        "unary operator, nested once on either side; plus a stream of FINITE inputs (1e200, 1e308, 5e-324, ...) whose IEEE "
+        "result is not finite (overflowing products/sums, division by subnormals, inf-inf, inside larger expressions): "
+        "None must be emitted — oracle only, the model has no overflow.  non-trivial = >=2 operators of >=2 kinds (or a grid case)")
 
 ENC = [None, "nan", "inf", "-inf"]
 
